@@ -9,6 +9,7 @@ MASKED_BACKENDS = ['asm', 'c64', 'c32']   # dxor/generic reuse one of these word
 H = {
     'aead': dict(name='aead', sources=['h_aead.c', 'trng_tape.c']),
     'perm': dict(name='perm', sources=['h_perm.c']),
+    'sym': dict(name='sym', sources=['h_sym.c']),
 }
 
 
